@@ -209,7 +209,7 @@ fn main() {
   let tier = arg_value(&args, "--tier").unwrap_or_else(|| "quick".into());
   let thorough = tier == "thorough";
   let default_runs: u64 = match (mode, thorough) {
-    (Mode::C10, false) => 12_000,
+    (Mode::C10, false) => 9_000,
     (Mode::C11, false) => 8_000,
     (Mode::C16, false) => 6_000,
     (Mode::C10, true) => 3_000_000,
@@ -310,6 +310,7 @@ fn main() {
   // L2: the same kind of scenarios through cli/main.rs + tower-lsp over simulated pipes
   let l2_default: u64 = match (mode, thorough) {
     (Mode::C16, _) => 0,
+    (Mode::C10, false) => 3_000,
     (_, false) => 6_000,
     (_, true) => 400_000,
   };
